@@ -1,5 +1,6 @@
 import SlotVerif.Model.SnapInv
 import SlotVerif.Model.Extract
+import SlotVerif.Model.Analysis
 import SlotVerif.Driver.Codec
 /-! `snap` protocol (C08/C09/C05): `snap <sig>;<snapshot lines joined by ~>;<query>;<query>...` -/
 namespace SV.Drv
@@ -79,6 +80,23 @@ def snapQuery (sig : Sig) (s : Snap) (q : String) : String :=
     let t := Extract.minCost cf s
     if !Extract.checkTable cf s t then "table-rejected"
     else (match Extract.Table.get t (nat! i) with | some k => toString k | none => "none")
+  | ["fix", kS] =>
+    let k := match kS with | "minsize" => Analysis.Kind.minSize | "const" => Analysis.Kind.const | _ => Analysis.Kind.minDepth
+    (match Analysis.firstBad k s with | none => "1" | some i => s!"0:class{i}")
+  | ["minsize-best"] =>
+    -- the min-size datum of every live class equals the checked cheapest AstSize cost
+    let t := Extract.minCost .ast s
+    if !Extract.checkTable .ast s t then "table-rejected" else
+    (match s.classes.find? (fun c => s.isAlive c.id && Analysis.parseData .minSize c.data != Extract.Table.get t c.id) with
+     | none => "1" | some c => s!"0:class{c.id}")
+  | ["const-nodes"] =>
+    -- a class with constant datum v holds the number node v, and holds no other number node
+    (match s.classes.find? (fun c => s.isAlive c.id &&
+        (match Analysis.parseData .const c.data with
+         | some v => !(c.nodes.any fun e => e.1.v == 15 && (Analysis.litNat e.1).map (· % 7) == some v) ||
+                     (c.nodes.any fun e => e.1.v == 15 && (Analysis.litNat e.1).map (· % 7) != some v)
+         | none => c.nodes.any fun e => e.1.v == 15)) with
+     | none => "1" | some c => s!"0:class{c.id}")
   | ["count", i] => (match s.cls (nat! i) with | some c => toString (Grp.count (Snap.group c)) | none => "none")
   | _ => "bad-query"
 
